@@ -509,6 +509,11 @@ def onaccept_tcp(listener, method, mux, handlers):
             finally:
                 _extra_fd = os.open(os.devnull, os.O_RDONLY)
             return
+        elif e.args[0] == errno.ECONNABORTED:
+            # the peer reset the connection while it was waiting in the
+            # listen queue: there is nothing to accept any more.
+            debug1('Rejected incoming connection: aborted before accept.')
+            return
         else:
             raise
 
